@@ -7,7 +7,7 @@ ID = "C18"
 LEVEL = "exploration"
 RULE = ("cases = (prefix history, probe) pairs: prefix drawn from the C08/C17 alphabet (first/refactor/solve/destroy, one-shot drivers, singular "
         "steps, independent systems of other sizes and other precisions s/d/c/z, changes of the sp_ienv blocking parameters between first-time factorizations); probe = a first-time factorization (FIRST after DESTROY) or a "
-        "simple-driver solve with one thread and the built-in kernels; oracle = differential: the probe is executed once after the prefix and "
+        "simple-driver solve or an expert-driver call (X, rcond, pivot growth, ferr, berr, scalings) with one thread and the built-in kernels; oracle = differential: the probe is executed once after the prefix and "
         "once in a fresh process on the same values; info, perm_r, perm_c, the validated L/U (structure and values) and X must be "
         "bit-identical (hash compare); the history oracles of C08 run on both. non-trivial = the prefix contains a same-precision call of "
         "another size, a change of blocking parameters, a refactorization or a singular/failed step; distinct = case text")
@@ -30,7 +30,8 @@ def c18_case(draw, nmax=24, maxlen=6):
         if o.startswith("FIRST"): have = True
         elif o.startswith("DESTROY"): have = False
     if have: ops.append("DESTROY")
-    probe = draw(st.sampled_from(["FIRST P=1 u=1.0", "GSSV P=1 nrhs=2", "FIRST P=1 u=0.5"]))
+    probe = draw(st.sampled_from(["FIRST P=1 u=1.0", "GSSV P=1 nrhs=2", "FIRST P=1 u=0.5", "GSSVX P=1 fact=DOFACT trans=N symm=0 u=1.0 nrhs=2",
+                                  "GSSVX P=1 fact=EQUILIBRATE trans=T symm=0 u=1.0 nrhs=1"]))
     ops.append(probe)
     if probe.startswith("FIRST") and draw(st.booleans()):
         ops.append("SOLVE trans=%s nrhs=2 bseed=11" % draw(st.sampled_from(["N", "T"])))
@@ -46,7 +47,7 @@ def evaluate(case, runner):
     """returns a list of (text, verdict): prefix+probe run, fresh run, and the differential verdict"""
     ops = case["ops"]
     # index of the probe: last FIRST/GSSV
-    pi = max(i for i, o in enumerate(ops) if o.startswith("FIRST") or o.startswith("GSSV"))
+    pi = max(i for i, o in enumerate(ops) if o.startswith("FIRST") or o.startswith("GSSV"))      # (GSSV also matches GSSVX)
     # value changes of the prefix must be reproduced in the fresh run: replace REFACT by VALUES (same mode, seed), drop the rest
     fresh_ops = []
     have = False
@@ -65,10 +66,30 @@ def evaluate(case, runner):
     out = [(t1, v1), (t2, v2)]
     if v1.get("v") == "pass" and v2.get("v") == "pass":
         h1 = v1.get("f", {}).get("probe_hash"); h2 = v2.get("f", {}).get("probe_hash")
-        if h1 != h2:
+        if h1 is not None and h2 is not None and h1 != h2:     # (a history that legitimately ended early, e.g. tight workspace ran out, has no probe)
             v = {"v": "fail", "sig": "C18:probe_differs_after_prefix", "detail": "probe result hash %s after the prefix vs %s in a fresh process (info/perms/L/U/X not bit-identical)" % (h1, h2), "f": v1.get("f", {})}
             out.append((t1 + "# fresh-run ops:\n" + "".join("# op " + o + "\n" for o in fresh_ops), v))
     return out
+
+
+def replay_text(text, runner):
+    """a saved C18 case: run the history; when it carries the fresh-process operation list (written by evaluate) also run that and
+    compare the probe hashes"""
+    lines = text.split("\n")
+    fresh = [l[len("# op "):] for l in lines if l.startswith("# op ")]
+    main = "\n".join(l for l in lines if not l.startswith("#")) 
+    if not main.endswith("\n"): main += "\n"
+    v1 = runner.run(main)
+    if not fresh or v1.get("v") != "pass":
+        return v1
+    t2 = "\n".join(l for l in main.split("\n") if not l.startswith("op ") and l != "") + "\n" + "".join("op " + o + "\n" for o in fresh)
+    v2 = runner.run(t2)
+    if v2.get("v") != "pass":
+        return v2
+    h1 = v1.get("f", {}).get("probe_hash"); h2 = v2.get("f", {}).get("probe_hash")
+    if h1 is not None and h2 is not None and h1 != h2:
+        return {"v": "fail", "sig": "C18:probe_differs_after_prefix", "detail": "probe result hash %s after the prefix vs %s in a fresh process (info/perms/L/U/X not bit-identical)" % (h1, h2), "f": v1.get("f", {})}
+    return v1
 
 
 def nontrivial(case, v):
